@@ -1,5 +1,5 @@
 """property id -> rules, explanation of what is / is not decided"""
-from rules import r_lock, r_errdrop, r_coord, r_keyid, r_opcode, r_doaction, r_cancel, r_idle, r_loop, r_traverse, r_repeat, r_chv2, r_wait, r_macro, r_seq, r_override, r_reload, r_pipeline, r_dynmacro, r_vkey, r_layers, r_panic, r_prodcons, r_span, r_rec, r_evict, r_coordspace
+from rules import r_hist, r_lock, r_errdrop, r_coord, r_keyid, r_opcode, r_doaction, r_cancel, r_idle, r_loop, r_traverse, r_repeat, r_chv2, r_wait, r_macro, r_seq, r_override, r_reload, r_pipeline, r_dynmacro, r_vkey, r_layers, r_panic, r_prodcons, r_span, r_rec, r_evict, r_coordspace
 
 PROPS = {
     "C01": {
@@ -47,7 +47,7 @@ PROPS = {
                        "char-boundary safety of span slicing beyond the reviewed lexer invariant",
     },
     "C04": {
-        "rules": [r_coord.run, r_doaction.rule_state_push, r_layers.rule_fill, r_layers.rule_press_dedup],
+        "rules": [r_coord.run, r_doaction.rule_state_push, r_layers.rule_fill, r_layers.rule_press_dedup, r_doaction.rule_state_clear],
         "explanation": "Narrow: (R-FILL) the default fill of unassigned layer positions is decided from block-unmapped-keys and the "
                        "key only, never from the layer index, and position 0 is forced to NoOp; decides the release half of layered remapping — every state a press creates is keyed on the "
                        "coordinate (never the layer) and removed by Release at that coordinate (R-COORD); the key / layer / custom "
@@ -73,7 +73,7 @@ PROPS = {
         "not_decided": "which key is 'the next one', timeout arithmetic, stacking semantics — run-time values",
     },
     "C11": {
-        "rules": [r_keyid.run_all, r_layers.rule_mapped, r_coordspace.run],
+        "rules": [r_keyid.run_all, r_layers.rule_mapped, r_coordspace.run, r_reload.rule_globals],
         "level": "proof",
         "explanation": "Decides: (a) OsCode and KeyCode have identical discriminant sets and are repr(u16) — the exact soundness "
                        "condition of every enum transmute in the analysed crates, which are enumerated; (b) each arm n of "
@@ -87,7 +87,7 @@ PROPS = {
                        "output characters are trusted to the parser's character table",
     },
     "C07": {
-        "rules": [r_idle.run, r_idle.run_keytiming, r_loop.run],
+        "rules": [r_idle.run, r_idle.run_keytiming, r_loop.run, r_idle.run_states],
         "explanation": "Decides: (R-IDLE) every (type, field) of kanata's run-time state that has a self-dependent scalar update "
                        "(counter/timer) or loses elements in a function reachable from Kanata::tick_ms is read as a whole by "
                        "is_idle / can_block_update_idle_waiting (transitively), is covered by a container those read, or is listed "
@@ -149,7 +149,7 @@ PROPS = {
                        "scroll states, recorded macros is deliberately retained); file index selection arithmetic",
     },
     "C16": {
-        "rules": [r_pipeline.run, r_pipeline.run_template, r_pipeline.run_vars],
+        "rules": [r_pipeline.run, r_pipeline.run_template, r_pipeline.run_vars, r_pipeline.run_layer_lists],
         "explanation": "Narrow: decides the ordering preconditions of transparent indirection — the pre-processing stages are chained "
                        "include -> platform -> env -> template, each consuming the previous stage's result (data-flow order of the "
                        "and_then chain), parse_vars runs after pre-processing and dominates every parser that (transitively) "
@@ -167,7 +167,7 @@ PROPS = {
         "not_decided": "which of several output keys is preferred; layer search order — run-time values",
     },
     "C10": {
-        "rules": [r_opcode.run_all, r_doaction.rule_fork_keys],
+        "rules": [r_opcode.run_all, r_doaction.rule_fork_keys, r_hist.run],
         "explanation": "Decides the encoding layer of switch: (a) the opcode tag constants partition u16 (evaluated constants); "
                        "(b) every OpCode constructor's tag and bit-fields are decoded by opcode_type into the OpCodeType variant its "
                        "name states (value-set data-flow over the decoder; shift amounts and field masks agree; BooleanOperator "
@@ -178,7 +178,7 @@ PROPS = {
                        "compression numerics — these are functions of run-time values",
     },
     "C18": {
-        "rules": [r_vkey.run_all, r_coord.run],
+        "rules": [r_vkey.run_all, r_coord.run, r_macro.rule_seq_custom],
         "explanation": "Narrow: (R-VK-SINGLE) FakeKeyAction is interpreted only in handle_fakekey_action, which every trigger path "
                        "(key press, key release, on-idle, TCP) calls, and each of press/release/tap/toggle produces layout events; "
                        "(R-COORD) toggle's 'is it pressed' predicate covers exactly the State variants that carry a coordinate; "
